@@ -11,6 +11,7 @@ package telnet
 #   gReader   the buffered reader the login lines are read through
 #   gArmed    a connection deadline is currently set
 # ---------------------------------------------------------------------------
+ghost var gLoginLines int
 ghost var gReader *bufio.Reader
 ghost var gAsked bool
 ghost var gHasDeadline bool
@@ -31,6 +32,7 @@ func telnet.DialContext(ctx, addr, mycall, password) (c, err)
   call net.Conn.SetReadDeadline requires never: false
   call net.Conn.SetWriteDeadline requires never: false
   call bufio.(*Reader).ReadString requires deadline-armed: gAsked && (gHasDeadline ==> gArmed)
+  forbid bufio.(*Reader). except bufio.(*Reader).ReadString, bufio.(*Reader).Buffered, bufio.(*Reader).Peek, bufio.(*Reader).Size
   call bufio.(*Reader).ReadString requires login-reader: $0 == gReader && $1 == '\r'
   call fmt.Fprintf#0 requires callsign-line: $1 == "%s\r" && len($2) == 1 && same(unbox($2[0]), mycall)
   call fmt.Fprintf#1 requires password-line: $1 == "%s\r" && len($2) == 1 && same(unbox($2[0]), password)
@@ -44,6 +46,11 @@ func telnet.(listener).Accept(ln) (c, err)
   call bufio.NewReader set gReader := $r0
   call bufio.(*Reader).ReadString#0 set gFirstLine := $r0
   call bufio.(*Reader).ReadString requires login-reader: $0 == gReader && $1 == '\r'
+  # the login consumes exactly its two lines and nothing else from the stream: any other
+  # consuming call on the login reader would take bytes that belong to the session
+  forbid bufio.(*Reader). except bufio.(*Reader).ReadString, bufio.(*Reader).Buffered, bufio.(*Reader).Peek, bufio.(*Reader).Size
+  call bufio.(*Reader).ReadString set gLoginLines := gLoginLines + 1
+  at return requires two-lines: gLoginLines <= 2
   call fmt.Fprintf#0 requires callsign-prompt: $1 == "Callsign :\r"
   call fmt.Fprintf#1 requires password-prompt: $1 == "Password :\r"
   ensures no-stranded-bytes: err == nil && typeis(c, "*Conn") ==> as(c, "*Conn").reader == gReader && gReader != nil
